@@ -29,14 +29,34 @@ class A(Adapter):
             # n = 1: the only graph is the empty one (constant generator by necessity)
             out.append(Config(f"graph_coloring-n{n}-p{p}", build, {"n": n}, n=n, p=p,
                               constant_generator=(n == 1)))
+        # a user-supplied generator that hands out the adjacency matrix as an INTEGER 0/1 array (built from an edge list, loaded from a
+        # file): the abstract Generator only promises "an adjacency matrix"; not a shipped generator, so not subject to C10's certificates
+        from jumanji.environments.logic.graph_coloring.generator import Generator
+
+        class IntAdjacency(Generator):
+            def __init__(self, n, p):
+                self._inner = RandomGenerator(num_nodes=n, edge_probability=p)
+
+            @property
+            def num_nodes(self):
+                return self._inner.num_nodes
+
+            def __call__(self, key):
+                import jax.numpy as jnp
+                return jnp.asarray(self._inner(key), jnp.int32)
+
+        out.append(Config("graph_coloring-n7-p0.6-int-adjacency", lambda: GraphColoring(generator=IntAdjacency(7, 0.6)), {"n": 7}, n=7, p=0.6,
+                          # (the observation then carries an int32 adj_matrix where the spec declares bool — on the unchanged tree too — so
+                          # this configuration is outside C01's contract and is used for the rule properties only)
+                          only={"C04", "C05", "C06", "C08"}))
         return out
 
     def ser_state(self, env, s):
-        return {"adj_matrix": ser(s.adj_matrix), "colors": ser(s.colors),
+        return {"adj_matrix": ser(np.asarray(s.adj_matrix).astype(bool)), "colors": ser(s.colors),
                 "current_node_index": int(s.current_node_index), "action_mask": ser(s.action_mask)}
 
     def ser_obs(self, env, o):
-        return {"adj_matrix": ser(o.adj_matrix), "colors": ser(o.colors),
+        return {"adj_matrix": ser(np.asarray(o.adj_matrix).astype(bool)), "colors": ser(o.colors),
                 "action_mask": ser(o.action_mask), "current_node_index": int(o.current_node_index)}
 
     def ser_action(self, env, a):
